@@ -124,8 +124,12 @@ fn run_sliced(
                         paused_after_newline = true;
                     }
                     if !done {
-                        // finish with one blocking continue
+                        // finish with one blocking continue. A blocking continue has no time limit:
+                        // the virtual clock is left armed (1 step) so that a continue which wrongly
+                        // still counts itself as time-limited pauses at once, whatever the wall clock
+                        h.story.verif_set_async_step_budget(Some(1));
                         let r = h.story.cont();
+                        h.story.verif_set_async_step_budget(None);
                         // record like Host::apply(Continue)
                         match r {
                             Ok(text) => {
